@@ -2,7 +2,7 @@
    model of aesx is proved: CBC and CFB-128 as recurrences over the list of blocks, and
    PKCS#7 padding. Written independently of AesModes.v (indexed, relational), for an
    arbitrary block function E. Definitions only. *)
-From Got Require Import Base Aes.
+From Got Require Import Base Aes AesModes.
 Local Open Scope nat_scope.
 
 (* all values are bytes; a block is 16 bytes *)
@@ -50,3 +50,20 @@ Definition aess_affine_bit (b i : N) : bool :=
                    (N.testbit b ((i + 6) mod 8)%N))
              (N.testbit b ((i + 7) mod 8)%N))
        (N.testbit 99%N i).
+
+(* documented meaning of the options: the last mode option wins (default CBC); the last
+   non-empty IV wins (default 00 01 .. 0f) *)
+Definition aess_is_mode (o : aesm_option) : bool :=
+  match o with AesmWithCBC | AesmWithCFB => true | AesmWithIV _ => false end.
+Definition aess_is_iv (o : aesm_option) : bool :=
+  match o with AesmWithIV (_ :: _) => true | _ => false end.
+Definition aess_selected_mode (opts : list aesm_option) : aesm_mode :=
+  match find aess_is_mode (rev opts) with
+  | Some AesmWithCFB => AesmCFB
+  | _ => AesmCBC
+  end.
+Definition aess_selected_iv (opts : list aesm_option) : list N :=
+  match find aess_is_iv (rev opts) with
+  | Some (AesmWithIV iv) => iv
+  | _ => [0; 1; 2; 3; 4; 5; 6; 7; 8; 9; 10; 11; 12; 13; 14; 15]%N
+  end.
